@@ -53,7 +53,7 @@ def gen(tier, rng, shard, nshards):
                "precond": S.pick(rng, ["none", "none", "jacobi", "spd", "nystrom"]),
                "tol": float(S.pick(rng, [1e-12, 1e-10, 1e-8, 1e-6, 1e-4, 1e-2, 1e-1])),
                "max_iters": int(S.pick(rng, [0, 1, 2, 3, 5, 8, 15, 30, n, 2 * n, 1000])),
-               "via": S.pick(rng, ["cg", "cg", "cg", "inv"]), "wide_rhs": bool(rng.random() < 0.15)}
+               "via": S.pick(rng, ["cg", "cg", "cg", "inv"]), "wide_rhs": bool(rng.random() < 0.15), "opscale": float(S.pick(rng, [1.0, 1.0, 1.0, 1e-9, 1e9]))}
 
 
 def build_problem(case):
@@ -63,7 +63,8 @@ def build_problem(case):
     cplx = dt in P.CPLX
     Q = P.haar(rng, n, cplx)
     M = (Q * lam) @ Q.conj().T
-    M = ((M + M.conj().T) / 2).astype(P.DT[dt])
+    M = ((M + M.conj().T) / 2 * case.get("opscale", 1.0)).astype(P.DT[dt])  # CG is scale invariant: operators in tiny / huge units
+    lam = lam * case.get("opscale", 1.0)
     shape = (n, ) if case["cols"] == 0 else (n, case["cols"])
     b = rng.standard_normal(shape) + (1j * rng.standard_normal(shape) if cplx else 0)
     b = b.astype(P.DT[dt])
